@@ -479,7 +479,7 @@ class CHText:
             return self[:desired_len]
         if len_diff > 0:
             return self + " "*len_diff
-        return self
+        return type(self)(self)  # a new object, as in the other cases
 
     def __format__(self, format_spec) -> str:
         """Support formatted printing.
